@@ -342,3 +342,144 @@ Proof.
     exact (info_as lits e up gap a H1 H2 H3).
   - destruct (info_js lits x); [discriminate|reflexivity].
 Qed.
+
+(* ================================================================== select lists *)
+(* ------------------------------------------------------------------ the star marking pass *)
+(* the rest of a select list after an item: nothing, or a comma and more *)
+Definition tail_ok (T : str) : Prop := T = [] \/ exists T', T = COMMA :: T'.
+
+(* no root of a star match inside the text: the text does not begin (after spaces) with one of the three star spellings, and
+   neither does what follows any of its commas *)
+Fixpoint inner_star_free (x : str) : bool :=
+  match x with
+  | [] => true
+  | c :: t => (if N.eqb c COMMA then is_none (star_body t) else true) && inner_star_free t
+  end.
+Definition star_free (x : str) : bool := is_none (star_body x) && inner_star_free x.
+
+Lemma drop_sp_tail : forall T, tail_ok T -> drop_sp T = T.
+Proof. intros T [->|[T' ->]]; reflexivity. Qed.
+Lemma end_or_comma_tail : forall T, tail_ok T -> end_or_comma T = true.
+Proof. intros T [->|[T' ->]]; reflexivity. Qed.
+Lemma star_body_tail : forall T, tail_ok T -> star_body T = None.
+Proof.
+  intros T [->|[T' ->]]; [reflexivity|]. unfold star_body. change (drop_sp (COMMA :: T')) with (COMMA :: T').
+  change (N.eqb COMMA STAR) with false. cbv iota. destruct T' as [|d [|e r]]; try reflexivity.
+  destruct (N.eqb d DOT && N.eqb e STAR); reflexivity.
+Qed.
+
+Lemma star_scan_tail_state : forall T b, tail_ok T -> star_scan T b 0 = star_scan T false 0.
+Proof.
+  intros T b HT. destruct b; [|reflexivity]. destruct T as [|c T']; [reflexivity|]. cbn [star_scan].
+  unfold try_star. rewrite (star_body_tail _ HT). reflexivity.
+Qed.
+
+Lemma star_body_app : forall x T, tail_ok T -> star_body x = None -> star_body (x ++ T) = None.
+Proof.
+  intros x T HT H. unfold star_body in *. destruct (drop_sp x) as [|c y] eqn:E.
+  - assert (E2 : drop_sp (x ++ T) = T).
+    { clear H. induction x as [|a x IH]; [exact (drop_sp_tail T HT)|]. unfold drop_sp in *. cbn [app lstrip_by] in *.
+      destruct (is_sp a); [apply IH; exact E|discriminate]. }
+    rewrite E2. pose proof (star_body_tail T HT) as Q. unfold star_body in Q. rewrite (drop_sp_tail T HT) in Q. exact Q.
+  - unfold drop_sp in *. rewrite (lstrip_app_nonempty is_sp x T) by (rewrite E; discriminate). rewrite E. cbn [app].
+    destruct (N.eqb c STAR); [discriminate|]. destruct y as [|d [|e r]].
+    + destruct HT as [->|[T' ->]]; [reflexivity|]. cbn [app]. destruct T' as [|e r]; [reflexivity|]. change (N.eqb COMMA DOT) with false. reflexivity.
+    + destruct HT as [->|[T' ->]]; [reflexivity|]. cbn [app]. change (N.eqb COMMA STAR) with false. rewrite andb_false_r. reflexivity.
+    + cbn [app]. destruct (N.eqb d DOT && N.eqb e STAR); [|reflexivity]. destruct (N.eqb c 97); [discriminate|]. destruct (N.eqb c 98); [discriminate|reflexivity].
+Qed.
+
+(* a star-free stretch of text is copied *)
+Lemma star_scan_free : forall x T b, tail_ok T -> inner_star_free x = true -> (b = true -> star_body x = None) ->
+  star_scan (x ++ T) b 0 = x ++ star_scan T false 0.
+Proof.
+  induction x as [|c x IH]; intros T b HT HF Hb.
+  - exact (star_scan_tail_state T b HT).
+  - cbn [inner_star_free] in HF. apply andb_true_iff in HF. destruct HF as [HF1 HF2]. cbn [app star_scan].
+    assert (E : (if b then try_star (c :: x ++ T) else None) = None).
+    { destruct b; [|reflexivity]. unfold try_star. change (c :: x ++ T) with ((c :: x) ++ T). rewrite (star_body_app _ T HT (Hb eq_refl)). reflexivity. }
+    rewrite E. f_equal. apply IH; [exact HT|exact HF2|]. intro Hc. rewrite Hc in HF1. destruct (star_body x); [discriminate|reflexivity].
+Qed.
+
+Definition star_kind (r : ritem) : starkind := match r with RStarA => StarA | RStarB => StarB | _ => StarAll end.
+
+Lemma consumed_app : forall (u T : str), consumed (u ++ T) T = length u.
+Proof. intros u T. unfold consumed. rewrite app_length. lia. Qed.
+
+Lemma star_scan_skip : forall u T, star_scan (u ++ T) false (length u) = star_scan T false 0.
+Proof. induction u as [|c u IH]; intro T; [reflexivity|]. cbn [app length star_scan]. apply IH. Qed.
+
+Lemma try_star_item : forall r pre T, is_star_item r = true -> pre = [] \/ pre = [SP] -> tail_ok T ->
+  try_star ((pre ++ render_item r) ++ T) = Some (length (pre ++ render_item r), star_kind r).
+Proof.
+  intros r pre T Hr Hp HT. unfold try_star, star_tail.
+  assert (B : star_body ((pre ++ render_item r) ++ T) = Some (T, star_kind r)).
+  { destruct Hp as [->| ->]; destruct r; try discriminate; reflexivity. }
+  rewrite B, (drop_sp_tail T HT), (end_or_comma_tail T HT), consumed_app. reflexivity.
+Qed.
+
+(* a star item, at the beginning of the text or after ", ", is replaced by its marker - together with the space before it *)
+Lemma star_scan_star : forall r pre T, is_star_item r = true -> pre = [] \/ pre = [SP] -> tail_ok T ->
+  star_scan ((pre ++ render_item r) ++ T) true 0 = render_marked r ++ star_scan T false 0.
+Proof.
+  intros r pre T Hr Hp HT. pose proof (try_star_item r pre T Hr Hp HT) as E.
+  destruct (pre ++ render_item r) as [|c u] eqn:U.
+  { destruct Hp as [->| ->]; destruct r; discriminate. }
+  cbn [app star_scan]. cbn [app] in E. rewrite E. cbn [length Nat.sub]. rewrite Nat.sub_0_r, star_scan_skip.
+  destruct r; try discriminate; reflexivity.
+Qed.
+
+(* ------------------------------------------------------------------ the texts *)
+Definition sep_item (r : ritem) : str := (if is_star_item r then [] else [SP]) ++ render_marked r.
+Definition tail_src (rest : list ritem) : str := concat (map (fun x => COMMA :: SP :: render_item x) rest).
+Definition tail_marked (rest : list ritem) : str := concat (map (fun x => COMMA :: sep_item x) rest).
+Definition src_text (items : list ritem) : str := join [COMMA; SP] (map render_item items).
+Definition marked_text (items : list ritem) : str :=
+  match items with [] => [] | r :: rest => render_marked r ++ tail_marked rest end.
+
+Lemma join_concat : forall (d : str) xs x, join d (x :: xs) = x ++ concat (map (fun y => d ++ y) xs).
+Proof.
+  intros d. induction xs as [|y xs IH]; intro x.
+  - cbn. rewrite app_nil_r. reflexivity.
+  - change (join d (x :: y :: xs)) with (x ++ d ++ join d (y :: xs)). rewrite (IH y). cbn [map concat]. rewrite <- app_assoc. reflexivity.
+Qed.
+
+Lemma join_tail : forall r rest, src_text (r :: rest) = render_item r ++ tail_src rest.
+Proof.
+  intros r rest. unfold src_text, tail_src. cbn [map]. rewrite join_concat, map_map. reflexivity.
+Qed.
+
+Lemma tail_src_ok : forall rest, tail_ok (tail_src rest).
+Proof. intros [|y rest]; [left; reflexivity|right]. unfold tail_src. cbn [map concat app]. eexists. reflexivity. Qed.
+
+(* per-item condition for the star pass *)
+Definition star_ok (r : ritem) : bool := is_star_item r || star_free (render_item r).
+
+Lemma star_scan_comma : forall t, star_scan (COMMA :: t) false 0 = COMMA :: star_scan t true 0.
+Proof. reflexivity. Qed.
+
+Lemma star_scan_tail : forall rest, forallb star_ok rest = true -> star_scan (tail_src rest) false 0 = tail_marked rest.
+Proof.
+  induction rest as [|y rest IH]; intro H; [reflexivity|]. cbn [forallb] in H. apply andb_true_iff in H. destruct H as [Hy Hr].
+  unfold tail_src, tail_marked. cbn [map concat]. fold (tail_src rest). fold (tail_marked rest). cbn [app]. rewrite star_scan_comma.
+  f_equal. unfold sep_item. destruct (is_star_item y) eqn:S.
+  - change (SP :: render_item y ++ tail_src rest) with (([SP] ++ render_item y) ++ tail_src rest).
+    rewrite (star_scan_star y [SP] _ S (or_intror eq_refl) (tail_src_ok rest)), (IH Hr). rewrite app_nil_l. reflexivity.
+  - unfold star_ok in Hy. rewrite S in Hy. cbn [orb] in Hy. unfold star_free in Hy. apply andb_true_iff in Hy. destruct Hy as [Hy1 Hy2].
+    change (SP :: render_item y ++ tail_src rest) with ((SP :: render_item y) ++ tail_src rest).
+    rewrite (star_scan_free (SP :: render_item y) _ true (tail_src_ok rest)).
+    + rewrite (IH Hr). replace (render_marked y) with (render_item y) by (destruct y; try discriminate; reflexivity). reflexivity.
+    + cbn [inner_star_free]. exact Hy2.
+    + intros _. destruct (star_body (render_item y)) eqn:Q; [discriminate|]. unfold star_body in *. exact Q.
+Qed.
+
+Theorem star_hdr_marked : forall items, forallb star_ok items = true -> star_hdr (src_text items) = marked_text items.
+Proof.
+  intros [|r rest] H; [reflexivity|]. cbn [forallb] in H. apply andb_true_iff in H. destruct H as [Hy Hr].
+  rewrite join_tail. unfold star_hdr, marked_text. destruct (is_star_item r) eqn:S.
+  - change (render_item r ++ tail_src rest) with (([] ++ render_item r) ++ tail_src rest).
+    rewrite (star_scan_star r [] _ S (or_introl eq_refl) (tail_src_ok rest)), (star_scan_tail rest Hr). reflexivity.
+  - unfold star_ok in Hy. rewrite S in Hy. cbn [orb] in Hy. unfold star_free in Hy. apply andb_true_iff in Hy. destruct Hy as [Hy1 Hy2].
+    rewrite (star_scan_free (render_item r) _ true (tail_src_ok rest) Hy2).
+    + rewrite (star_scan_tail rest Hr). replace (render_marked r) with (render_item r) by (destruct r; try discriminate; reflexivity). reflexivity.
+    + intros _. destruct (star_body (render_item r)); [discriminate|reflexivity].
+Qed.
